@@ -232,7 +232,7 @@ def rr6_boundary_cases(tier):
         s = isqrt(m)
         for fi, f in enumerate(sorted(set(x % m for x in (2, 3, s, s + 1, m - 1, m // 2, m // 3, m // 2 + 1, 3 * (m // 4), 51, 75, 246, (m * 5) // 7)))):
             for ab0 in (max(1, s), max(1, s // 2)):
-                k = max(f // max(1, s), ab0)
+                k = ab0                       # the bound handed to ratrecon is the caller's numbound (224c4ab)
                 if not 1 <= k <= m: continue
                 ok, n, d = py_ratrecon(f, m, k)
                 if not ok or d < 1: continue
@@ -833,6 +833,15 @@ def run_impl(himpl, lines, timeout):
             if restarts > 25:
                 return out, "more than 25 cases needed a second run"
             continue
+        if rc not in (0, 42, 124) and pos < len(lines):
+            # the process died on the case at `pos` (signal / abort, e.g. a GMP division by zero): a concrete failing input;
+            # go on behind it (three such inputs are enough)
+            out[pos] = "CRASHED rc=%s" % rc
+            pos += 1
+            restarts += 1
+            if sum(1 for x in out if x is not None and x.startswith("CRASHED")) >= 3:
+                return out, "hang-limit"
+            continue
         return out, "harness failed (rc=%s, %d/%d lines) %s" % (rc, pos, len(lines), err[-300:])
     return out, "ok"
 
@@ -851,7 +860,7 @@ def main(tier, replay=None):
     ]
     chk.assumptions = ["models hand-written after givratreconstruct.C and givpoly1ratrecon.inl; tie = correspondence on generated cases for every public call form",
                        "the `recurs` flag of Rational::ratrecon only controls std::cerr output and is not modelled",
-                       "givaro defects repaired in /repo that this model follows: 5d1bca8 (residue f <= -m reduced with modin), 68125ac (6-argument RationalReconstruction returns ratrecon(...) && b <= b_bound)"]
+                       "givaro defects repaired in /repo that this model follows: 5d1bca8 (residue f <= -m reduced with modin), 68125ac (6-argument RationalReconstruction returns ratrecon(...) && b <= b_bound), 224c4ab (6-argument RationalReconstruction hands ratrecon the caller's numbound)"]
     # the Coq build (coq/C08 first: imported read-only, then coq/C11) and the C++ builds are independent: run them side by side
     import threading
     box = {}
@@ -908,22 +917,11 @@ def main(tier, replay=None):
         chk.notes.append("inconclusive: the harness timed out printing its constants; thresholds 50/50 assumed")
     else:
         chk.broke("tie: the harness did not print the constants of the compiled implementation", "rc=%s out=%r %s" % (rc, cout[:2], cerr[-300:]))
-    # which body of the 6-argument RationalReconstruction is in the source NOW (read on every run): the one with
-    # `bound = x/bb` (model RR6; finding ratrecon:rr6/numbound) or the repaired one of frag/C11.fix-2.diff (model RR6f)
-    rr6_repaired = False
-    try:
-        txt = open(os.path.join(vf.REPO, "src/kernel/rational/givratreconstruct.C")).read()
-        i = txt.find("a_bound, const Integer& b_bound)")
-        body = txt[i:txt.find("\n    }", i)] if i >= 0 else ""
-        import re
-        if re.search(r"bound\s*=\s*x\s*/", body): rr6_repaired = False
-        elif re.search(r"ratrecon\s*\(\s*a\s*,\s*b\s*,\s*x\s*,\s*m\s*,\s*a_bound\s*,", body): rr6_repaired = True
-        else: chk.notes.append("tie: body of RationalReconstruction(a,b,x,m,a_bound,b_bound) not recognised; compared with the model of the x/bb body")
-    except OSError as ex:
-        chk.broke("tie: cannot read givratreconstruct.C", repr(ex))
-    chk.cov["rr6_body"] = "repaired (numerator bound = a_bound; model RR6f)" if rr6_repaired else "bound = max(x/b_bound, a_bound) (model RR6; known finding numbound)"
+    # the 6-argument RationalReconstruction is compared UNCONDITIONALLY with the model of the repaired body (RR6f: /repo 224c4ab,
+    # numerator bound = the caller's numbound); the body with bound = x/bb is history (C11_rr6_numbound_refuted) - a revert is
+    # reported by the oracle (klass numbound) and by the correspondence
     cases = gen_cases(rng, tier, chk)
-    if rr6_repaired:      # b_bound = 0 no longer divides by zero: drive it (plain failure expected)
+    if True:              # b_bound = 0 (divided by zero before 224c4ab): a plain failure
         for m in GRID_MODULI[:6]:
             for f in (0, 1, m // 2, m - 1, m + 3):
                 for v in ("rr6.static", "rr6.zring", "rr6.al3", "rr6.al7"):
@@ -1000,7 +998,7 @@ def main(tier, replay=None):
     if replay:
         allc = cases_from_replay(replay)
         chk.notes.append("replay of %d cases from %s" % (len(allc), replay))
-    model_in = ["%s %s\n" % ("rr6f" if (c[1] == "rr6" and rr6_repaired) else c[1], " ".join(str(x) for x in c[3])) for c in allc]
+    model_in = ["%s %s\n" % ("rr6f" if c[1] == "rr6" else c[1], " ".join(str(x) for x in c[3])) for c in allc]
     vf.log("C11: generation done %.1fs" % (time.time() - chk.t0))
     impl_lines = ["%s %s\n" % (c[0], " ".join(str(x) for x in c[2])) for c in allc]
     iout, istatus = run_impl(himpl, impl_lines, 2400)
@@ -1012,7 +1010,7 @@ def main(tier, replay=None):
         inconclusive.append("implementation harness: wall-clock limit 2400 s reached after %d of %d cases" % (n_done, len(allc)))
     elif istatus == "hang-limit":
         n_done = sum(1 for x in iout if x is not None)
-        inconclusive.append("implementation harness: stopped after three cases that do not return (reported as failing inputs); %d of %d cases run" % (n_done, len(allc)))
+        inconclusive.append("implementation harness: stopped after three cases that do not return / crash (reported as failing inputs); %d of %d cases run" % (n_done, len(allc)))
     elif istatus != "ok":
         bad = next((allc[i] for i, x in enumerate(iout) if x is None), None)
         chk.broke("implementation %s; next case: %s" % (istatus, bad and (bad[0], bad[2])))
@@ -1041,6 +1039,10 @@ def main(tier, replay=None):
         if i % 1499 == 0:
             chk.sample({"variant": v, "args": [str(x) for x in ia][:24], "impl": iout[i][:200]})
         nfail = len(chk.failing)
+        if iout[i].startswith("CRASHED"):
+            site = ("polyratrecon:" + op[5:]) if pc is not None else ("ratrecon:" + VARIANTS[v][0])
+            chk.fail_input(site, "crash", case, "the call returns", iout[i], "the harness process died in this call (%s)" % iout[i])
+            continue
         if iout[i].strip() == "DOES-NOT-RETURN":
             site = ("polyratrecon:" + op[5:]) if pc is not None else ("ratrecon:" + VARIANTS[v][0])
             chk.fail_input(site, "does-not-return", case, "the call returns", "no return within 20 s of CPU time in the stream and 60 s alone",
